@@ -101,7 +101,18 @@ def main():
         simple = cfg["expect"] == "error"          # bad-input configurations use plain C-ordered arrays
         lay = lays["%s|%s|%d|%d" % ("C" if simple else cfg["layout"], "none" if simple else cfg["out"], r, f)]
         flatX = [v for row in case["X"] for v in row]
-        xbuf, X = view2(scaled(flatX, U, dt) if flatX else None, lay["xl"], r, f, dt, fill)
+        # wide float rows are also replayed far from the origin and finely scaled: v -> 1024 + v / 4096 (exact in
+        # float32 and float64).  Every kernel is invariant under the translation and scales with the factor, so the
+        # record's integers still say what must come out -- unless the kernel loses the small differences
+        aff = None
+        if (U == 1 and np.dtype(dt).kind == "f" and f >= 100 and cfg["expect"] == "ok" and cfg["ydt"] == "same"
+                and (ci + gi) % 2 == 0):
+            aff = (1024.0, 1.0 / 4096.0)
+
+        def placed(vals, dtp):
+            a = scaled(vals, U, dtp)
+            return a if aff is None else (aff[0] + a.astype(np.float64) * aff[1]).astype(dtp)
+        xbuf, X = view2(placed(flatX, dt) if flatX else None, lay["xl"], r, f, dt, fill)
         yvals = list(case["y"])
         if cfg["dw"] == "wider":
             yvals = yvals + [0]
@@ -109,7 +120,7 @@ def main():
             yvals = yvals[:-1]
         yclipped = False
         try:
-            ysc = scaled(yvals, U, ydt) if yvals else np.zeros(0, dtype=ydt)
+            ysc = (placed(yvals, ydt) if aff is not None else scaled(yvals, U, ydt)) if yvals else np.zeros(0, dtype=ydt)
         except OverflowError:
             # only possible when y has the *other* element type (expect = "either"): the magnitude of the
             # configuration does not fit that type.  The call is still made (refusal is what the model
@@ -171,7 +182,7 @@ def main():
             elif cfg["expect"] == "error":
                 bad = ("no-error", "returned %s" % (np.asarray(res).tolist() if np.size(res) <= 8 else type(res).__name__))
             elif not yclipped:
-                bad = check(np, case, cfg, U, res, out, obuf, lay)
+                bad = check(np, case, cfg, U if aff is None else U * aff[1], res, out, obuf, lay)
             if bad is None and (xbuf.tobytes() != xb0 or ybuf.tobytes() != yb0):
                 bad = ("input-modified", "")
             dg = raised.split(":")[0] if raised is not None else hashlib.sha1(np.ascontiguousarray(res).tobytes()).hexdigest()[:12]
@@ -210,7 +221,7 @@ def check(np, case, cfg, U, res, out, obuf, lay):
             e = case["sq"][i]                       # squared distance in units
             gu = g / U
             ok = abs(gu * gu - e) <= TOL * max(1.0, e) and g >= 0
-            exp = "sqrt(%d)*%d" % (e, U)
+            exp = "sqrt(%d)*%s" % (e, U)
         else:
             e = case["mis"][i]
             ok = abs(g * f - e) <= TOL * f
